@@ -57,7 +57,7 @@ func scratchBase() string {
 var theScratch string
 
 func cleanupScratch() {
-	if theScratch != "" {
+	if theScratch != "" && os.Getenv("VERIF_KEEP_SCRATCH") == "" {
 		os.RemoveAll(theScratch)
 	}
 }
